@@ -36,8 +36,8 @@ MANIFEST = dict(
     note="Lean 4.33 kernel; axioms propext/Classical.choice/Quot.sound at most; hand-written models tied to "
          "pipecmd.c/opt.c/rcmd.c/dsh.c by differential execution of code built from /repo's working tree; host "
          "expansion (hostlist.c) is a parameter of the registry model and is supplied by an independent Python "
-         "expander for simple names and bracket ranges; the rsh wire request is proved about the model of xrcmd's "
-         "write order and is not exercised against a peer (no rsh peer in this check)")
+         "expander for simple names and bracket ranges; the rsh wire request is exercised against a scripted peer on "
+         "127.9.17.1-4:514 when the sandbox allows listening there (skipped with a note otherwise)")
 
 ALPHA = "%hunxa"
 SAN_ENV = dict(os.environ, ASAN_OPTIONS="detect_leaks=0:handle_segv=0:allow_user_segv_handler=1")
@@ -201,8 +201,8 @@ def part_a(ctx, cov, dist, rng):
                                   "specified `%s`" % (c[:160], a[:160], s[:160]),
                              {"flavour": name, "line": c, "impl": a, "spec": s})
     cov["distinct_nontrivial"] += len(seen)
-    if len(cov["samples"]) < 2:
-        cov["samples"].append({"line": cases[40], "impl": "see model", "model": mlines[40], "spec": slines[40]})
+    k = next((i for i, c in enumerate(cases) if c.startswith("args") and has_pct(c)), 0)
+    cov["samples"].append({"line": cases[k], "model": mlines[k], "spec": slines[k]})
     return variant
 
 
@@ -486,6 +486,161 @@ def part_b(ctx, cov, dist, rng, repo, variant):
                 [unhx(x) for x in got], [unhx(x) for x in s.split()[1:]]), case)
 
 
+# ------------------------------------------------------------------------------------- (d) rsh wire request
+
+PEER_ADDRS = ["127.9.17.%d" % i for i in range(1, 5)]
+
+
+class RshPeer:
+    """scripted rsh server: records the bytes received before its first reply, connects back to the
+    announced stderr port from a reserved port, answers "\\0", sends one line, closes"""
+
+    def __init__(self):
+        import socket
+        import threading
+        self.got = []
+        self.lock = threading.Lock()
+        self.socks = []
+        for a in PEER_ADDRS:
+            s = socket.socket()
+            s.setsockopt(socket.SOL_SOCKET, socket.SO_REUSEADDR, 1)
+            s.bind((a, 514))
+            s.listen(16)
+            self.socks.append(s)
+            threading.Thread(target=self.accept_loop, args=(s, a), daemon=True).start()
+
+    def accept_loop(self, s, addr):
+        import threading
+        while True:
+            try:
+                c, peer = s.accept()
+            except OSError:
+                return
+            threading.Thread(target=self.handle, args=(c, peer, addr), daemon=True).start()
+
+    def handle(self, c, peer, addr):
+        import socket
+        c.settimeout(10)
+        data = b""
+        back = None
+        backok = None
+        try:
+            while data.count(b"\0") < 1:
+                b = c.recv(1)
+                if not b:
+                    break
+                data += b
+            port = data.split(b"\0")[0]
+            if port.isdigit():
+                backok = False
+                for lp in range(1023, 511, -1):
+                    try:
+                        back = socket.socket()
+                        back.bind((addr, lp))
+                        back.connect((peer[0], int(port)))
+                        backok = True
+                        break
+                    except OSError:
+                        back.close()
+                        back = None
+            while data.count(b"\0") < 4:
+                b = c.recv(1)
+                if not b:
+                    break
+                data += b
+            with self.lock:
+                self.got.append((addr, peer[1], data, backok))
+            c.sendall(b"\0")
+            c.sendall(b"ok\n")
+        except OSError:
+            with self.lock:
+                self.got.append((addr, peer[1], data, backok))
+        finally:
+            c.close()
+            if back:
+                back.close()
+
+    def take(self):
+        with self.lock:
+            g, self.got = self.got, []
+        return g
+
+    def close(self):
+        for s in self.socks:
+            s.close()
+
+
+def part_d(ctx, cov, dist, rng, repo):
+    try:
+        peer = RshPeer()
+    except OSError as e:
+        dist["rsh"] = "skipped: cannot listen on %s:514 (%s)" % (PEER_ADDRS[0], e)
+        ctx.log("rsh wire part skipped: %s" % e)
+        return
+    exe = os.path.join(repo, "src/pdsh/pdsh")
+    luser = pwd.getpwuid(os.getuid()).pw_name
+    n = 40 if ctx.quick() else 400
+    dist["rsh"] = 0
+    nviol0 = len(ctx.violations)
+    try:
+        for _ in range(n):
+            if len(ctx.violations) - nviol0 >= 3:
+                break               # a broken handshake makes every run wait for time-outs
+            addrs = rng.sample(PEER_ADDRS, rng.choice([1, 2, 3]))
+            words, want = [], {}
+            for a in addrs:
+                if rng.random() < 0.4:
+                    u = rng.choice(USERS)
+                    words.append(u + "@" + a)
+                    want[a] = u
+                else:
+                    words.append(a)
+                    want[a] = None
+            l = rng.choice([None, None, "bob", "u2"])
+            cmd = rng.choice([["true"], ["echo", "a  b", "%h%%"], ["sh", "-c", "x;y  z"], ["uname", "-a", "%"], ["c", "", "d"]])
+            argv = ["-R", "rsh", "-w", ",".join(words)] + (["-l", l] if l else []) + cmd
+            try:
+                q = subprocess.run([exe] + argv, env={"PATH": "/usr/bin:/bin"}, stdout=subprocess.PIPE,
+                                   stderr=subprocess.PIPE, stdin=subprocess.DEVNULL, timeout=60, cwd=ctx.scratch)
+            except subprocess.TimeoutExpired:
+                ctx.offender("timeout", "pdsh -R rsh against the scripted peer does not finish", {"argv": argv})
+                peer.take()
+                continue
+            got = peer.take()
+            case = {"argv": argv, "rc": q.returncode, "stderr": q.stderr.decode("latin-1")[-300:]}
+            lines = []
+            for addr, _, data, backok in got:
+                lines.append("parse " + bh(data))
+            parsed = ctx.model("rcmd", "".join(x + "\n" for x in lines), args=["spec"]) if lines else []
+            seen = {}
+            for (addr, _, data, backok), pl in zip(got, parsed):
+                cov["evaluations"] += 1
+                dist["rsh"] += 1
+                if not pl.startswith("ok "):
+                    ctx.offender("rsh:malformed-request", "the rsh request for %s is not four NUL-terminated fields: %r" % (
+                        addr, data), dict(case, request=data.hex()))
+                    continue
+                pf, lu, ru, cm = [unhx(x) for x in pl.split()[1:]]
+                exp_ru = want.get(addr) or l or luser
+                exp_cmd = " ".join(cmd)
+                okport = (pf == "" and backok is None) or (pf.isdigit() and backok is True)
+                if not (okport and lu == luser and ru == exp_ru and cm == exp_cmd):
+                    ctx.offender("rsh:request", "rsh request for %s is (port %r, local %r, remote %r, command %r, stderr "
+                                                "channel connected: %s); specified (a listening port, %r, %r, %r)" % (
+                        addr, pf, lu, ru, cm, backok, luser, exp_ru, exp_cmd), dict(case, request=data.hex()))
+                # correspondence with the model of xrcmd's write order
+                ml = ctx.model("rcmd", "req %s %s %s %s\n" % (pf if pf else "none", hx(luser), hx(exp_ru), hx(exp_cmd)),
+                               args=["model", "unchanged"])
+                if ml[0] != bh(data):
+                    ctx.disagreement("rsh request model vs xrcmd", "peer got %s, model %s" % (bh(data), ml[0]), case)
+                seen[addr] = seen.get(addr, 0) + 1
+            for a in addrs:
+                if seen.get(a, 0) != 1 and not any(g[0] == a for g in got):
+                    ctx.offender("rsh:no-connection", "target %s was not contacted through rsh" % a, case)
+    finally:
+        peer.close()
+
+
 def run(ctx):
     rng = ctx.rng
     ctx.gen_consts(["modopt"])
@@ -497,7 +652,8 @@ def run(ctx):
                    "argument vectors with empty and %-terminated members; (b) pdsh -R exec with an argv-dumping helper; "
                    "(c) command lines mixing plain / user@ / type:user@ / type: words over overlapping host sets "
                    "(several -w, comma lists, ranges, zero padding, rare two-bracket words), -l, -R, PDSH_RCMD_TYPE, -x, "
-                   "malformed words, unknown types, with 3-6 fake transports loaded; non-trivial = argument containing "
+                   "malformed words, unknown types, with 3-6 fake transports loaded; (d) pdsh -R rsh against a scripted "
+                   "peer on loopback recording the request bytes; non-trivial = argument containing "
                    "'%' / command line with two annotated words or an annotated word over a repeated host; distinct by text"}
     dist = {"fmt": 0, "args": 0, "cli": 0, "reg": 0, "reg_fatal": 0, "reg_nodomain": 0, "nodomain": 0, "offenders": {}}
     variant = part_a(ctx, cov, dist, rng)
@@ -505,6 +661,7 @@ def run(ctx):
     if repo is not None and variant is not None:
         part_b(ctx, cov, dist, rng, repo, variant)
         part_c(ctx, cov, dist, rng, repo)
+        part_d(ctx, cov, dist, rng, repo)
     cov["distribution"] = dist
     return ctx.finish(
         LEVEL, cov,
